@@ -121,6 +121,30 @@ def _fuzz_decode_phase(run_, vc, seed, phases):
 
 
 
+def _compiler_reply_phase(run_, tier, seed, phases):
+    """The last sentence of C11 - in the compiler a malformed generator reply becomes a diagnostic - observed where it is stated:
+    the real binary is given generators whose replies are truncated at every byte, undecodable or announce absurd sizes (the
+    reply part of C18's fault catalogue, same oracle: an E001 that names the generator, exit status 1, no crash, no hang, no
+    files written from that reply)."""
+    t0 = time.time()
+    try:
+        paths = build.build("release", ("slicec", "vh"))
+    except build.BuildError as e:
+        run_.errors.append("compiler build failed: %s" % e)
+        return
+    sub_run = core.run_shards("vlib.checks.c18", run_.prop, tier, seed, paths, [("replies", i, 8) for i in range(8)])
+    for v in sub_run.violations:
+        v["what"] = "[compiler: generator reply] " + v["what"]
+    run_.violations.extend(sub_run.violations)
+    run_.errors.extend(sub_run.errors)
+    run_.inconclusive.extend(sub_run.inconclusive)
+    run_.evaluations += sub_run.evaluations
+    for k, v in sub_run.stats.items():
+        run_.stats["compiler." + k] += v
+    phases["compiler"] = {"evaluations": sub_run.evaluations, "wall_s": round(time.time() - t0, 1),
+                          "counters": {k: v for k, v in sub_run.stats.items() if k in ("runs", "faults_injected", "healthy_outputs_verified")}}
+
+
 def _miri_pass(run_, absorb, phases, sub, tier, label, flags, seed):
     t0 = time.time()
     pre, env, cwd = build.miri_cmd()
@@ -242,6 +266,8 @@ def run(prop, sub, tier, seed, rule, required, assumptions, exhaustive_note):
     for label, flags, mseed in passes:
         _miri_pass(run_, absorb, phases, sub, tier, label, flags, mseed)
 
+    if sub == "c11":
+        _compiler_reply_phase(run_, tier, seed, phases)
     if sub == "c11" and tier == "thorough":
         _fuzz_decode_phase(run_, vc, seed, phases)
 
